@@ -47,6 +47,32 @@ def build(shape, scripts, lfaults=None, kind='c', extra=None):
     return spec
 
 
+BIG_SCRIPTS = ['pass'] * 14 + ['fail', 'error', 'skip_body', 'skip_dec', 'xfail', 'uxs', 'sub:1,1,0',
+                               'body+teardown', 'setup_err', 'fail@1', 'sub_skip']
+
+
+def big_spec(nlayers=12, ntests=40, nie=None, chain=3):
+    """A world that is not small: nlayers layers (the first `chain` ones
+    derive from each other, the rest are independent) with ntests tests each
+    and 30 unit tests; every outcome kind occurs many times, placed by a fixed
+    arithmetic pattern."""
+    layers = []
+    for i in range(nlayers):
+        L = {'n': 'L%02d' % i, 'b': (['L%02d' % (i - 1)] if 0 < i < chain else []), 'k': 'c',
+             'h': list(worlds.HOOKS_SD)}
+        if nie is not None and i == nie:
+            L['f'] = {'tearDown': 'NIE'}
+        layers.append(L)
+    tests = []
+    for i in range(30):
+        tests.append({'n': 'u%03d' % i, 'l': None, 's': BIG_SCRIPTS[(i * 11) % len(BIG_SCRIPTS)]})
+    for li in range(nlayers):
+        for i in range(ntests):
+            tests.append({'n': 't%02d_%03d' % (li, i), 'l': 'L%02d' % li,
+                          's': BIG_SCRIPTS[(i * 7 + li * 3) % len(BIG_SCRIPTS)]})
+    return {'layers': layers, 'tests': tests}
+
+
 def script_events(t, modname='vtw.tests', nth=1):
     """[(kind 'F'|'E'|'S', name)] produced by ONE execution of test t (the
     nth one in its process)."""
